@@ -17,6 +17,8 @@ import core  # noqa: E402
 def setup() -> int:
     import translate
     info = translate.generate()
+    import genreg
+    genreg.main()
     with core.Lock():
         rc, log = core.run(["lake", "build", "HtmlVerif", "htdriver"], cwd=core.LEAN, timeout=7200)
     print(log[-3000:])
